@@ -41,6 +41,7 @@ pub struct Ctx {
     scen_desc: Json,
     oplog: VecDeque<String>,
     pub leak_ok: bool,
+    pub log_on: bool,
 }
 
 pub fn parse_args(args: &[String]) -> Ctx {
@@ -70,6 +71,7 @@ pub fn parse_args(args: &[String]) -> Ctx {
         scen_desc: Json::Null,
         oplog: VecDeque::new(),
         leak_ok: false,
+        log_on: true,
     };
     let mut i = 0;
     while i < args.len() {
@@ -111,6 +113,7 @@ pub fn parse_args(args: &[String]) -> Ctx {
         }
         i += 1;
     }
+    c.log_on = c.lane != "miri" || c.only.is_some();
     c
 }
 
@@ -323,4 +326,10 @@ pub fn prop_salt(p: &str) -> u64 {
     let mut d = crate::util::Digest::default();
     d.bytes(p.as_bytes());
     d.0
+}
+
+/// `oplog!(ctx, "fmt", args)`: appends to the scenario's op log (skipped in the Miri lane unless replaying).
+#[macro_export]
+macro_rules! oplog {
+    ($ctx:expr, $($arg:tt)*) => { if $ctx.log_on { $ctx.log(format!($($arg)*)); } };
 }
